@@ -6,6 +6,7 @@ CONSTANTS
   PreStates = {"absent", "R1", "Q"}
   MaxRej = 0
   FreeRefs = FALSE
+  Grabs = FALSE
   MaxEdits = 2
   MaxFaults = 1
   MaxRecs = 3
